@@ -150,7 +150,7 @@ def run(ctx) -> Result:
     # ------------------------------------------------------------------ W1
     check_w1(res, proj)
     # ------------------------------------------------------------------ S2
-    _check_initial(res, proj, ctx.thorough)
+    doubts = check_initial_deferred(res, proj, ctx.thorough, "S2")
     # ------------------------------------------------------------------ S3
     from . import C08
     # the book-kept score is the start score plus the accepted test values: it is the score of the ranking reached only if
@@ -165,6 +165,7 @@ def run(ctx) -> Result:
     _check_optional(res, proj, prods)
     # ------------------------------------------------------------------ S6
     check_bioconsert_selection(res, proj, "S6")
+    check_decode_large(res, proj, "S6")
     # S4 and S5 are decided by the rules of C05 (X3) and C10 (K2, K3); import them so that C04 fails with them
     try:
         from . import C10
@@ -184,7 +185,39 @@ def run(ctx) -> Result:
     if not res.violations:      # the end-to-end pass adds nothing to an established violation (and may not terminate on it)
         from . import e2e
         e2e.check(res, ctx.proj, "C04", ctx.thorough)
+    settle_initial_doubts(res, doubts)
     return res
+
+
+def check_initial_deferred(res: Result, proj: Project, thorough: bool, rule: str):
+    """S2 looks at `_bio_consert` alone: it expects the start score of each row to be added there. Its successes are
+    recorded; its failures are returned as *doubts* - the start score may be computed elsewhere - which
+    `settle_initial_doubts` turns into a verdict once the end-to-end rule has run."""
+    sub = Result(res.prop)
+    sub.rule("S2", "", 0)
+    _check_initial(sub, proj, thorough)
+    if sub in Result.registry:
+        Result.registry.remove(sub)         # its failures are doubts, not findings the driver should keep
+    doubts = []
+    for o in sub.obligations:
+        o.rule = rule
+        if o.status == "violation":
+            doubts.append(o)
+        else:
+            res.obligations.append(o)
+    res.functions |= sub.functions
+    return doubts
+
+
+def settle_initial_doubts(res: Result, doubts):
+    if not doubts:
+        return
+    if res.violations:
+        res.obligations.extend(doubts)      # the end-to-end rule (or another one) confirms that scores are wrong
+        return
+    raise AnalysisError(f"{doubts[0].key}: {doubts[0].detail} - but the reported scores are right on every dataset of the "
+                        f"end-to-end rule: the start score is probably computed outside the analysed routine, which the "
+                        f"symbolic scenario does not follow")
 
 
 def _is_scoring_call(val: ast.AST, f) -> bool:
@@ -370,6 +403,31 @@ def check_bioconsert_selection(res: Result, proj: Project, rule: str):
                   comp.loc(), ok_detail=f"reports {min(scores)} and returns {rk!r}",
                   bad_detail=f"final rows {fin} with scores {scores}: reported {att.get('ConsensusFeature.KEMENY_SCORE')!r}, "
                              f"returned {rk!r}" + (f", expected {want!r}" if want else ", expected one minimal row"))
+
+
+def check_decode_large(res: Result, proj: Project, rule: str):
+    """The end of BioConsert.compute_consensus_rankings on a 300-element universe whose best row has 290 buckets, the
+    last ten of two elements each: bucket ids beyond 256 (python keeps one object per small integer only) and beyond
+    the 8-bit range are decoded like the small ones."""
+    comp = proj.method(proj.cls(bioc.MOD, "BioConsert"), "compute_consensus_rankings")
+    n = 300
+    elems = [f"E{i:03d}" for i in range(n)]
+    mapping = {e: i for i, e in enumerate(elems)}
+    sc = bioc.Scenario(elems, mapping, [[{e} for e in elems]], True)
+    row = [i if i < 280 else 280 + (i - 280) // 2 for i in range(n)]
+    other = list(range(n))
+    ret, cap, log, ds = bioc.eval_compute(proj, sc, [list(other), list(row)], [list(other), list(row)], [9.0, 4.0], False)
+    got = cap.get("consensus_rankings")
+    rk = [r[1] for r in got] if isinstance(got, list) and all(isinstance(r, tuple) for r in got) else None
+    want = _decode(row, dict(enumerate(elems)))
+    good = rk is not None and len(rk) == 1 and [set(b) for b in rk[0]] == want
+    sizes = [len(b) for b in rk[0]] if rk and isinstance(rk[0], list) else None
+    res.check(good, rule, "BioConsert.compute_consensus_rankings:decode-290-buckets", comp.loc(),
+              ok_detail="a 300-element row with 290 buckets (ids up to 289, ten buckets of two elements at the end) is decoded "
+                        "bucket for bucket",
+              bad_detail=f"best row has 290 buckets (280 singletons then 10 pairs): decoded into "
+                         f"{len(rk[0]) if rk and isinstance(rk[0], list) else rk!r} buckets, sizes of the last twelve: "
+                         f"{sizes[-12:] if sizes else None}")
 
 
 def _decode(row: List[int], id_elem: Dict[int, str]) -> List[set]:
